@@ -749,6 +749,16 @@ def gen_case(rng, malformed, accttypes):
             ks = rng.sample(KINDS, rng.choice([1, 2]))
             rqs = [dict(gen_request(rng, False, accttypes)) for _ in range(n)]
             rqs = [r for r in rqs if r["k"] in ks] or rqs
+        if rqs and rng.random() < 0.4:
+            # a MULTISET of requests: the same request (equal in every field) given two or three times, adjacent or not;
+            # every occurrence must get its own wrapper
+            for _ in range(rng.choice([1, 1, 2])):
+                r = rng.choice(rqs)
+                for _ in range(rng.choice([1, 1, 2])):
+                    if len(rqs) < 12:
+                        i = rqs.index(r)
+                        pos = rng.choice([i, i + 1, rng.randint(0, len(rqs)), len(rqs)])
+                        rqs.insert(pos, json.loads(json.dumps(r)))
         op = {"kind": "statements", "password": gen_text(rng, 1, 40), "gen": rng.random() < 0.85, "requests": rqs}
         nu = len(rqs) + 1
     elif c < 0.76:
